@@ -1,7 +1,12 @@
 package verifsim
 
 import (
+	"bytes"
+	"context"
+	"errors"
 	"fmt"
+	"net/http"
+	"net/http/httptest"
 	"os"
 	"path/filepath"
 	"sort"
@@ -11,7 +16,9 @@ import (
 
 	"github.com/anishathalye/porcupine"
 	"github.com/transparency-dev/witness/internal/config"
+	"github.com/transparency-dev/witness/internal/feeder/bastion"
 	"github.com/transparency-dev/witness/omniwitness"
+	"golang.org/x/time/rate"
 )
 
 // ---------------------------------------------------------------- C02
@@ -923,14 +930,44 @@ func init() {
 			if n%3 == 2 {
 				p.Cfg.Seam, p.Cfg.Clients = "none", 1 // operation-wise interleaving only
 			}
+			if n%7 == 4 {
+				// storage errors while some log is being served must not reach the others: SQLite, faults inside the database driver
+				p.Cfg.Store, p.Cfg.Seam, p.Cfg.Clients, p.Cfg.Strategy = "sqlite", "driver", 1, "uniform"
+				for i := range p.Ops {
+					p.Ops[i].C = 0
+				}
+				for occ := 0; occ < 2*len(p.Ops); occ++ {
+					for _, call := range []string{"drv.Begin", "drv.Query", "drv.Next", "drv.Exec", "drv.Commit", "drv.Rollback"} {
+						if r.Chance(0.03) {
+							p.Faults = append(p.Faults, Fault{At: fmt.Sprintf("c0:%s#%d", call, occ), Kind: drvKind(r)})
+						}
+					}
+				}
+			}
 			return p
 		},
 		Run: func(t *testing.T, p *Plan) *Outcome {
-			res, out := baseOutcome(t, p, false)
+			faulty := len(p.Faults) > 0
+			res, out := baseOutcome(t, p, faulty)
 			if len(out.Infra) > 0 {
 				return out
 			}
+			for i := range out.Viol {
+				// with storage faults in play: a fault while one log was served has left the whole witness stuck
+				out.Viol[i].Class, out.Viol[i].Sig = "log_state_depends_on_other_log", "log_state_depends_on_other_log/"+out.Viol[i].Sig
+			}
+			if len(out.Viol) > 0 {
+				return out
+			}
 			w := res.W
+			// logs whose own requests were hit by a fault are not compared below; all the others must be unaffected
+			hit := map[string]bool{}
+			for _, r := range res.Hist {
+				if len(r.Fired) > 0 && r.Req != nil {
+					hit[r.Req.LogID] = true
+					out.Stats.Probes["requests_hit_by_storage_fault"]++
+				}
+			}
 			// nothing stored under another ID
 			out.Viol = append(out.Viol, filterClass(oracleC02(res), "accepted_wrong_origin", "accepted_for_unknown_id", "accepted_unsigned_text")...)
 			for i := range out.Viol {
@@ -939,9 +976,12 @@ func init() {
 			together := perLogVerdicts(res)
 			accepted := 0
 			for _, ld := range w.Logs {
+				if hit[ld.ID] {
+					continue
+				}
 				// this log's history alone
 				q := p.Clone()
-				q.Cfg.Seam, q.Cfg.Clients, q.Tape = "none", 1, nil
+				q.Cfg.Seam, q.Cfg.Clients, q.Tape, q.Faults = "none", 1, nil, nil
 				q.Ops = nil
 				for _, o := range p.Ops {
 					tgt := opTarget(o, len(p.Cfg.Logs))
@@ -1013,6 +1053,29 @@ func init() {
 			} else if cl.ID != LogID(oo) || cl.Origin != oo {
 				out.Viol = append(out.Viol, Violation{Class: "id_disagreement", Sig: "id_disagreement/config_log", Detail: fmt.Sprintf("config.NewLog(%q) yields ID %s origin %q; the witness map and the bastion endpoint use %s for that origin", oo, cl.ID, cl.Origin, LogID(oo))})
 			}
+			// ... and the bastion endpoint must hand a submission for that origin to the witness under that same ID, also
+			// for origins longer than the buffers line readers use
+			for _, bo := range []string{oo, strings.Repeat("o", []int{4095, 4096, 4097, 6000, 12000}[int(p.Seed/16%5)]) + "/long"} {
+				cl, err := config.NewLog(bo, w.Logs[0].Key.VerifierString(), "http://z.example/")
+				if err != nil {
+					continue
+				}
+				rec := &idRecorder{}
+				h := bastion.VerifNewHandler(bastion.Config{Logs: []config.Log{cl}, Limits: bastion.RequestLimits{TotalPerSecond: rate.Limit(1e9)}}, rec)
+				root := w.Logs[0].Branches[0].Root(1)
+				text := CheckpointText(bo, 1, root[:])
+				body := wireBody(0, nil, MakeNote(text, w.Logs[0].Key.SignEd25519(text)))
+				rr := httptest.NewRecorder()
+				h.ServeHTTP(rr, httptest.NewRequest(http.MethodPost, "/add-checkpoint", bytes.NewReader(body)))
+				if len(rec.ids) != 1 || rec.ids[0] != LogID(bo) {
+					ob := bo
+					if len(ob) > 40 {
+						ob = fmt.Sprintf("%s...(%d bytes)", ob[:20], len(bo))
+					}
+					out.Viol = append(out.Viol, Violation{Class: "id_disagreement", Sig: "id_disagreement/bastion_endpoint", Detail: fmt.Sprintf("a submission for configured origin %q was answered %d and handed to the witness under %v; everyone else files that log under %s", ob, rr.Code, rec.ids, LogID(bo))})
+				}
+				out.Stats.Probes["bastion_endpoint_identity_probes"]++
+			}
 			if accepted >= 2 {
 				out.Distinct = []string{res.SchedHash}
 				out.Stats.Probes["runs_with_2plus_active_logs"]++
@@ -1023,6 +1086,17 @@ func init() {
 		Components:  engineWComponents,
 		Assumptions: []string{"symbolic operations are resolved against the same log's state only, so a per-log history means the same requests alone as interleaved", "the cross-component identity part (feeders, bastion, distributor, HTTP all using hex(sha256('o:'+origin))) is checked in the Main-level world (C14/C16 runs) and by the bastion/distributor checks (C10, C15)"},
 	})
+}
+
+// idRecorder is a feeder.Witness that only records under which ID it was called.
+type idRecorder struct{ ids []string }
+
+func (w *idRecorder) GetLatestCheckpoint(ctx context.Context, id string) ([]byte, error) {
+	return nil, os.ErrNotExist
+}
+func (w *idRecorder) Update(ctx context.Context, id string, old uint64, cp []byte, proof [][]byte) ([]byte, error) {
+	w.ids = append(w.ids, id)
+	return nil, errors.New("recorder: not a witness")
 }
 
 // opTarget is the index of the log whose ID an update names (cross-log replays name another log's).
